@@ -943,11 +943,18 @@ vp_dict = _Proxy(vp_dict_fn, builtins.dict)
 
 def vp_set_fn(*a):
     """real set: iteration order is the hash order a real run with this PYTHONHASHSEED has"""
+    if a:
+        items = list(a[0])
+        for x in items:
+            if isinstance(x, builtins.int) and not is_concrete_int(x):
+                # symbolic members cannot be hashed: CrossHair's equality-based set
+                return builtins.set(items)
+    else:
+        items = []
     s = {0}
     s.clear()
-    if a:
-        for x in a[0]:
-            s.add(x)
+    for x in items:
+        s.add(x)
     return s
 
 
